@@ -448,6 +448,29 @@ fn bin_name() -> String {
         .unwrap_or_default()
 }
 
+static PROCESS_SCRATCH: std::sync::OnceLock<PathBuf> = std::sync::OnceLock::new();
+
+/// A directory private to this process for scenarios that need real files (removed by the
+/// parent together with its own scratch directory, or at the end of a replay).
+pub fn process_scratch() -> PathBuf {
+    PROCESS_SCRATCH
+        .get_or_init(|| {
+            let base = std::env::var("VERIF_SCRATCH")
+                .map(PathBuf::from)
+                .unwrap_or_else(|_| PathBuf::from("/dev/shm"));
+            let d = base.join(format!("verif-proc-{}", std::process::id()));
+            std::fs::create_dir_all(&d).expect("create process scratch dir");
+            d
+        })
+        .clone()
+}
+
+fn remove_process_scratch() {
+    if let Some(d) = PROCESS_SCRATCH.get() {
+        let _ = std::fs::remove_dir_all(d);
+    }
+}
+
 /// `replay <file>`: exit 1 iff the recorded violation reproduces (same oracle id).
 fn cmd_replay(scenarios: &[Scenario], path: &str) -> i32 {
     let txt = match std::fs::read_to_string(path) {
@@ -578,6 +601,11 @@ fn cmd_worker(scenarios: &[Scenario], a: WorkerArgs) -> i32 {
     };
     if let Ok(dup) = cur.try_clone() {
         let _ = CUR_FILE.set(std::sync::Mutex::new(dup));
+    }
+    {
+        let d = a.out.join(format!("fs-{}", a.id));
+        let _ = std::fs::create_dir_all(&d);
+        let _ = PROCESS_SCRATCH.set(d);
     }
     let mut hashes_file = if a.hashes {
         Some(std::io::BufWriter::new(
@@ -1324,7 +1352,15 @@ pub fn main_with(scenarios: &[Scenario]) -> ! {
             2
         }
     };
+    remove_process_scratch_if_owned(&args);
     std::process::exit(code)
+}
+
+fn remove_process_scratch_if_owned(args: &[String]) {
+    // workers' scratch lives under the parent's directory, which the parent removes
+    if args.get(1).map(String::as_str) != Some("worker") {
+        remove_process_scratch();
+    }
 }
 
 /// Run `f` on a fresh 2 MiB-stack thread whose hash seed is `seed` (so that every
